@@ -1,211 +1,14 @@
 /-
   C13 — Encoded text streams: encoding detection, BOM and chunked decoding are lossless.
-  PROPERTY THEOREMS ONLY.
+
+  Umbrella module (what `tools/check.py C13` builds and audits). The property theorems live in
+    * Props/C13Detect.lean   — regenerated BOM table, BOM / BOM-less detection, ambiguity,
+                               progress and termination of the chunked reader for EVERY byte stream;
+    * Props/C13Writer.lean   — the writer emits exactly the configured encoding and BOM;
+    * Props/C13Lossless.lean — main clause: a well-formed text in any of the five encodings is read
+                               back exactly (`Success* EndFile`, text = `encs wo t`) for every chunk
+                               size ≥ 32, with and without BOM; writer session → reader round trip.
+  All of them are in namespace `BSVerif.Props.C13`.
 -/
-import BSVerif.Utf.StreamOracle
-import BSVerif.Props.C12
-import BSVerif.Utf.Progress
-import BSVerif.Props.C13Writer
-
-namespace BSVerif.Props.C13
-open BSVerif.Utf BSVerif.Utf.Spec BSVerif.Utf.StreamOracle
-
-/-! #### regenerated obligations -/
-
-/-- The BOM table compiled into the library is the Unicode one, for all five encodings. -/
-theorem bom_table : ∀ t : UtfType, bomOf t = specBom t := by
-  intro t; cases t <;> decide
-
-/-- The default chunk size satisfies the reader's `static_assert`s (multiple of 4, ≥ 32). -/
-theorem chunk_size_obligation :
-    Generated.Utf.encodedStreamReaderDefaultChunk % 4 = 0 ∧ 32 ≤ Generated.Utf.encodedStreamReaderDefaultChunk := by
-  decide
-
-/-! #### detection -/
-
-/-- **BOM detection**, all encodings, any body. The UTF-16LE BOM followed by two zero bytes *is* the
-    UTF-32LE BOM (Unicode's own ambiguity), hence the side condition. -/
-theorem detect_bom (e : UtfType) (body : List Nat)
-    (h16 : e = .utf16le → ¬ [0, 0].isPrefixOf body) :
-    detect (specBom e ++ body) = (e, (specBom e).length) := by
-  cases e <;> simp [detect, bomOf, specBom, startsWith, Generated.Utf.bomUtf8, Generated.Utf.bomUtf16le,
-    Generated.Utf.bomUtf16be, Generated.Utf.bomUtf32le, Generated.Utf.bomUtf32be] <;> simp_all
-
-/-- The NUL-freeness side condition of BOM-less detection is forced: two different texts in two
-    different encodings can be the same bytes, so no detector can satisfy the unrestricted claim. -/
-theorem ambiguous : bytesLE 8 (encs 8 [0x41, 0]) = bytesLE 16 (encs 16 [0x41]) ∧ [0x41, 0] ≠ [0x41] := by
-  decide
-
-/-! #### BOM-less detection (the positive half of the property; `ambiguous` above shows the side conditions are forced) -/
-
-theorem getD_mem_or (s : List Nat) (i : Nat) (h : i < s.length) : s.getD i 0 ∈ s := by
-  simp only [List.getD_eq_getElem?_getD, List.getElem?_eq_getElem h, Option.getD_some]; exact List.getElem_mem h
-
-/-- a byte string without zero bytes is never taken for UTF-16/32 by the zero-pattern analysis -/
-theorem analyse_no_zero (s : List Nat) (hnz : ∀ b ∈ s, 0 < b ∧ b < 256) : ∀ fuel i, analyse s fuel i = .utf8 := by
-  intro fuel
-  induction fuel with
-  | zero => intro i; rfl
-  | succ fuel ih =>
-    intro i
-    unfold analyse
-    by_cases hi : i ≥ s.length
-    · simp [hi]
-    · simp only [hi, if_false]
-      have h32 : (if i % 4 = 0 ∧ i + 4 ≤ s.length then
-          (if le32At s i ≠ 0 then (if le32At s i / 65536 = 0 then some UtfType.utf32le
-            else if le32At s i % 65536 = 0 then some UtfType.utf32be else none) else none) else none) = none := by
-        by_cases hc : i % 4 = 0 ∧ i + 4 ≤ s.length
-        · have b0 := hnz _ (getD_mem_or s i (by omega))
-          have b1 := hnz _ (getD_mem_or s (i + 1) (by omega))
-          have b2 := hnz _ (getD_mem_or s (i + 2) (by omega))
-          have b3 := hnz _ (getD_mem_or s (i + 3) (by omega))
-          have hx : le32At s i ≠ 0 ∧ le32At s i / 65536 ≠ 0 ∧ le32At s i % 65536 ≠ 0 := by unfold le32At; omega
-          simp only [hc, and_self, if_true]
-          rw [if_pos hx.1, if_neg hx.2.1, if_neg hx.2.2]
-        · simp [hc]
-      have h16 : (if i % 2 = 0 ∧ i + 2 ≤ s.length then
-          (if le16At s i ≠ 0 then (if le16At s i / 256 = 0 then some UtfType.utf16le
-            else if le16At s i % 256 = 0 then some UtfType.utf16be else none) else none) else none) = none := by
-        by_cases hc : i % 2 = 0 ∧ i + 2 ≤ s.length
-        · have b0 := hnz _ (getD_mem_or s i (by omega))
-          have b1 := hnz _ (getD_mem_or s (i + 1) (by omega))
-          have hx : le16At s i ≠ 0 ∧ le16At s i / 256 ≠ 0 ∧ le16At s i % 256 ≠ 0 := by unfold le16At; omega
-          simp only [hc, and_self, if_true]
-          rw [if_pos hx.1, if_neg hx.2.1, if_neg hx.2.2]
-        · simp [hc]
-      simp only [h32, h16]
-      exact ih (i + 1)
-
-/-- **BOM-less UTF-8**: any byte string without zero bytes that starts with an ASCII character is detected as UTF-8 -/
-theorem detect_utf8_nobom (c : Nat) (rest : List Nat) (hc : 0 < c ∧ c < 0x80) (hnz : ∀ b ∈ rest, 0 < b ∧ b < 256) :
-    detect (c :: rest) = (.utf8, 0) := by
-  have hall : ∀ b ∈ c :: rest, 0 < b ∧ b < 256 := by
-    intro b hb; simp at hb; rcases hb with rfl | hb
-    · omega
-    · exact hnz b hb
-  unfold detect
-  have h1 : ¬ (239 = c) := by omega
-  have h2 : ¬ (255 = c) := by omega
-  have h3 : ¬ (0 = c) := by omega
-  have h4 : ¬ (254 = c) := by omega
-  simp [startsWith, bomOf, Generated.Utf.bomUtf8, Generated.Utf.bomUtf16le, Generated.Utf.bomUtf16be,
-    Generated.Utf.bomUtf32le, Generated.Utf.bomUtf32be, h1, h2, h3, h4]
-  exact analyse_no_zero _ hall _ _
-
-/-- **BOM-less UTF-16LE**: first unit ASCII (non-NUL), second unit (if any) not NUL -/
-theorem detect_utf16le_nobom (c : Nat) (rest : List Nat) (hc : 0 < c ∧ c < 0x80)
-    (hrest : ∀ a b r, rest = a :: b :: r → a < 256 ∧ b < 256 ∧ ¬ (a = 0 ∧ b = 0)) :
-    detect (c :: 0 :: rest) = (.utf16le, 0) := by
-  have h1 : ¬ (239 = c) := by omega
-  have h2 : ¬ (255 = c) := by omega
-  have h3 : ¬ (0 = c) := by omega
-  have h4 : ¬ (254 = c) := by omega
-  unfold detect
-  simp only [startsWith, bomOf, Generated.Utf.bomUtf8, Generated.Utf.bomUtf16le, Generated.Utf.bomUtf16be,
-    Generated.Utf.bomUtf32le, Generated.Utf.bomUtf32be, List.isEmpty_cons, Bool.false_eq_true, if_false,
-    List.isPrefixOf, h1, h2, h3, h4, beq_iff_eq, Bool.and_eq_true, false_and, List.length_cons]
-  match rest, hrest with
-  | [], _ =>
-    have hc0 : ¬ (c = 0) := by omega
-    have hc1 : c < 256 := by omega
-    simp [analyse, le16At, le32At, hc0, hc1]
-  | [a], _ =>
-    have hc0 : ¬ (c = 0) := by omega
-    have hc1 : c < 256 := by omega
-    simp [analyse, le16At, le32At, hc0, hc1]
-  | a :: b :: r, hr =>
-    obtain ⟨ha, hb, hab⟩ := hr a b r rfl
-    have hx : le32At (c :: 0 :: a :: b :: r) 0 = c + 65536 * a + 16777216 * b := by simp [le32At]
-    have hy : le16At (c :: 0 :: a :: b :: r) 0 = c := by simp [le16At]
-    have e1 : ¬ ((c + 65536 * a + 16777216 * b) / 65536 = 0) := by omega
-    have e2 : ¬ ((c + 65536 * a + 16777216 * b) % 65536 = 0) := by omega
-    have e3 : c / 256 = 0 := by omega
-    have hc0 : ¬ (c = 0) := by omega
-    simp [analyse, hx, hy, e1, e2, e3, hc0]
-
-/-- **BOM-less UTF-16BE** -/
-theorem detect_utf16be_nobom (c : Nat) (rest : List Nat) (hc : 0 < c ∧ c < 0x80)
-    (hrest : ∀ a b r, rest = a :: b :: r → a < 256 ∧ b < 256 ∧ ¬ (a = 0 ∧ b = 0)) :
-    detect (0 :: c :: rest) = (.utf16be, 0) := by
-  have h3 : ¬ (0 = c) := by omega
-  have hc0 : ¬ (c = 0) := by omega
-  unfold detect
-  simp only [startsWith, bomOf, Generated.Utf.bomUtf8, Generated.Utf.bomUtf16le, Generated.Utf.bomUtf16be,
-    Generated.Utf.bomUtf32le, Generated.Utf.bomUtf32be, List.isEmpty_cons, Bool.false_eq_true, if_false,
-    List.isPrefixOf, h3, beq_iff_eq, Bool.and_eq_true, false_and, and_false, List.length_cons,
-    show ¬ ((239 : Nat) = 0) by decide, show ¬ ((255 : Nat) = 0) by decide, show ¬ ((254 : Nat) = 0) by decide]
-  have hy : ∀ l, le16At (0 :: c :: l) 0 = 256 * c := by intro l; simp [le16At]
-  have e4 : ¬ (256 * c = 0) := by omega
-  have e5 : ¬ (256 * c / 256 = 0) := by omega
-  have e6 : 256 * c % 256 = 0 := by omega
-  match rest, hrest with
-  | [], _ => simp [analyse, hy, le32At, e4, e5, e6, hc0]
-  | [a], _ => simp [analyse, hy, le32At, e4, e5, e6, hc0]
-  | a :: b :: r, hr =>
-    obtain ⟨ha, hb, hab⟩ := hr a b r rfl
-    have hx : le32At (0 :: c :: a :: b :: r) 0 = 256 * c + 65536 * a + 16777216 * b := by simp [le32At]
-    have e0 : ¬ (256 * c + 65536 * a + 16777216 * b = 0) := by omega
-    have e1 : ¬ ((256 * c + 65536 * a + 16777216 * b) / 65536 = 0) := by omega
-    have e2 : ¬ ((256 * c + 65536 * a + 16777216 * b) % 65536 = 0) := by omega
-    simp [analyse, hx, hy, e0, e1, e2, e4, e5, e6, hc0]
-
-/-- **BOM-less UTF-32LE** -/
-theorem detect_utf32le_nobom (c : Nat) (rest : List Nat) (hc : 0 < c ∧ c < 0x80) :
-    detect (c :: 0 :: 0 :: 0 :: rest) = (.utf32le, 0) := by
-  have h1 : ¬ (239 = c) := by omega
-  have h2 : ¬ (255 = c) := by omega
-  have h3 : ¬ (0 = c) := by omega
-  have h4 : ¬ (254 = c) := by omega
-  have hc0 : ¬ (c = 0) := by omega
-  have e1 : c / 65536 = 0 := by omega
-  unfold detect
-  simp only [startsWith, bomOf, Generated.Utf.bomUtf8, Generated.Utf.bomUtf16le, Generated.Utf.bomUtf16be,
-    Generated.Utf.bomUtf32le, Generated.Utf.bomUtf32be, List.isEmpty_cons, Bool.false_eq_true, if_false,
-    List.isPrefixOf, h1, h2, h3, h4, beq_iff_eq, Bool.and_eq_true, false_and, List.length_cons]
-  have hx : le32At (c :: 0 :: 0 :: 0 :: rest) 0 = c := by simp [le32At]
-  simp [analyse, hx, hc0, e1]
-
-/-- **BOM-less UTF-32BE** -/
-theorem detect_utf32be_nobom (c : Nat) (rest : List Nat) (hc : 0 < c ∧ c < 0x80) :
-    detect (0 :: 0 :: 0 :: c :: rest) = (.utf32be, 0) := by
-  have hc0 : ¬ (c = 0) := by omega
-  unfold detect
-  simp only [startsWith, bomOf, Generated.Utf.bomUtf8, Generated.Utf.bomUtf16le, Generated.Utf.bomUtf16be,
-    Generated.Utf.bomUtf32le, Generated.Utf.bomUtf32be, List.isEmpty_cons, Bool.false_eq_true, if_false,
-    List.isPrefixOf, beq_iff_eq, Bool.and_eq_true, false_and, and_false, List.length_cons,
-    show ¬ ((239 : Nat) = 0) by decide, show ¬ ((255 : Nat) = 0) by decide, show ¬ ((254 : Nat) = 0) by decide]
-  have hx : le32At (0 :: 0 :: 0 :: c :: rest) 0 = 16777216 * c := by simp [le32At]
-  have e0 : ¬ (16777216 * c = 0) := by omega
-  have e1 : ¬ (16777216 * c / 65536 = 0) := by omega
-  have e2 : 16777216 * c % 65536 = 0 := by omega
-  simp [analyse, hx, e0, e1, e2]
-
-
-/-! #### chunked reader: progress and termination (the "never hangs" part of the property) -/
-
-/-- window invariant of `CEncodedStreamReader` (start/end pointers stay inside the N-byte buffer) -/
-abbrev WInv := BSVerif.Utf.WInv
-
-/-- **Every successful `ReadChunk` makes progress**: for every reader state with a chunk size that
-    satisfies the class's `static_assert`s (here: ≥ 32), every stream content, policy and target
-    width, a call that returns Success strictly decreases
-    `unread stream bytes + buffered bytes + [stream not yet at eof]`, and keeps the window invariant.
-    (On the tree before commit 41d2b3f this was false: a stream ending inside a UTF-16/32 code unit
-    left 1–3 bytes in the window for ever.) -/
-theorem readChunk_progress (r : Reader) (out : List Nat) (hN : 32 ≤ r.N) (hinv : WInv r)
-    (hs : (r.readChunk out).1 = .success) :
-    (r.readChunk out).2.2.measure < r.measure ∧ WInv (r.readChunk out).2.2 ∧ (r.readChunk out).2.2.N = r.N :=
-  readChunk_progress' r out hN hinv hs
-
-/-- **A caller that reads until EndFile/DecodeError always terminates**, for every byte stream
-    (well-formed, ill-formed or truncated anywhere), every N ≥ 32, policy, mark and target width:
-    `len + 2` calls always suffice. -/
-theorem readAll_terminates (N wo : Nat) (pol : Policy) (mark : Option (List Nat)) (bytes : List Nat) (hN : 32 ≤ N) :
-    (Reader.readAll (bytes.length + 2) (Reader.mk' N wo pol mark bytes) [] []).2.2 = false := by
-  obtain ⟨h1, h2, h3⟩ := mk'_spec N wo pol mark bytes
-  exact readAll_no_hang _ _ _ _ (by omega) h1 (by omega)
-
-example : (Reader.mk' 32 8 .skip (some [0x3F]) [0xFF, 0xFE, 0x41, 0x00, 0x42]).utf = .utf16le := by decide
-
-end BSVerif.Props.C13
+import BSVerif.Props.C13Detect
+import BSVerif.Props.C13Lossless
